@@ -334,3 +334,152 @@ NATIVE_SET_N = Contract(
     note='records of any size; names are distinct (NamedTypes), components known by identity, encodeFun is the recursive '
          'conversion (assumed)')
 CONTRACTS = CONTRACTS + [NATIVE_SET_N]
+
+
+# ---- native decoders: python mapping / list + type -> value object -----------------------------------------------------------------
+ND = 'pyasn1/codec/native/decoder.py'
+D_HAS = z3.Function('mapping.has', _I, z3.BoolSort())          # is this name a key of the python mapping
+D_PY = z3.Function('mapping.value', _I, _I)                   # the python value under a name
+D_TYPE = z3.Function('declared.type.of', _I, _I)              # the component type declared under a name
+D_DEC = z3.Function('decoded', _I, _I, _I)                    # decodeFun(python value, type)
+
+
+class _Names(_RecSeqV):
+    """iteration over a record value / a python mapping: the field names"""
+
+    def elem(self, i):
+        return self.cols[0][i]
+
+
+def _d_spec(ex, env):
+    names = env['names'].z
+
+    def clone(ex2, self, *a, **kw):
+        def setitem(ex3, me, name, value):
+            me.fields['assigned'] = z3.Store(me.fields['assigned'], toint(name), True)
+            me.fields['vals'] = z3.Store(me.fields['vals'], toint(name), idof(value))
+        return Obj('Sequence', {'assigned': z3.K(_I, False), 'vals': z3.K(_I, z3.IntVal(0)), 'cleared': False, 'cloneOf': self},
+                   {'__iter__': lambda ex3, me: _Names([names], names=('name',)), '__setitem__': setitem,
+                    'clear': lambda ex3, me: me.fields.__setitem__('cleared', True)}, name='asn1Value')
+    ct = Obj('NamedTypes', {}, {'__getitem__': lambda ex2, self, name: Obj('NamedType', {'asn1Object': Obj('Asn1Type', {'__id__': D_TYPE(toint(name))},
+                                                                                                       name='memberType')}, name='namedType'),
+                                '__contains__': lambda ex2, self, name: ex2.fresh('declared', z3.BoolSort())}, name='componentType')
+    return Obj('Sequence', {'componentType': ct}, {'clone': clone}, name='asn1Spec')
+
+
+def _d_mapping(ex, env):
+    return Obj('dict', {}, {'__contains__': lambda ex2, self, k: D_HAS(toint(k)),
+                            '__getitem__': lambda ex2, self, k: Obj('PyValue', {'__id__': D_PY(toint(k))}, name='pyValue')}, name='pyObject')
+
+
+def _d_decode(ex, py, asn1Spec=None, **options):
+    return Obj('Asn1Value', {'__id__': D_DEC(idof(py), idof(asn1Spec))}, name='decodedMember')
+
+
+def _d_done(ex, v, names, upto):
+    z = names.z if isinstance(names, SeqV) else names.cols[0]
+    w = z3.Int('w!q')
+    return And(z3.ForAll([_j], z3.Implies(And(_j >= 0, _j < toint(upto)),
+                                           And(z3.Select(v.fields['assigned'], z[_j]) == D_HAS(z[_j]),
+                                               z3.Implies(D_HAS(z[_j]), z3.Select(v.fields['vals'], z[_j]) == D_DEC(D_PY(z[_j]), D_TYPE(z[_j])))))),
+               z3.ForAll([_j], z3.Implies(z3.Select(v.fields['assigned'], _j), z3.Exists([w], And(w >= 0, w < toint(upto), z[w] == _j)))))
+
+
+NATIVE_DEC_RECORD = Contract(
+    id='native.decoder::SequenceOrSetPayloadDecoder.__call__', file=ND, qual='SequenceOrSetPayloadDecoder.__call__', properties=['C17', 'C12'],
+    params=dict(names=_PIntTuple(), self=PObj('SequenceOrSetPayloadDecoder'), pyObject=PDerived(_d_mapping), asn1Spec=PDerived(_d_spec),
+                decodeFun=PConst(FnV(_d_decode, 'decodeFun')), options=POptions()),
+    globals={'done': FnV(_d_done, 'done')},
+    requires=['distinct_names'],
+    loops={0: Loop(index='k', invariant=['done(asn1Value, loop_seq, k)', 'asn1Value.cleared'],
+                   havoc_fields=['asn1Value.assigned', 'asn1Value.vals'])},
+    ensures=[
+        # exactly the members named in the python mapping are set, each to the conversion of its python value under the
+        # type declared for *that* member; a member the mapping does not name stays unset; the result is a fresh value
+        ('members-of-the-mapping-converted-under-their-own-types', 'done(result, names, len(names)) and result.cleared'),
+        ('fresh-object-not-the-schema', 'result is not asn1Spec and result.cloneOf is asn1Spec')],
+    note='names are the (distinct) field names of the record; decodeFun is the recursive conversion (assumed)')
+_w1, _w2 = z3.Int('w1!q'), z3.Int('w2!q')
+NATIVE_DEC_RECORD.globals['distinct_names'] = z3.ForAll([_w1, _w2], z3.Implies(
+    And(_w1 >= 0, _w2 > _w1, _w2 < z3.Length(z3.Const('names', _S))), z3.Const('names', _S)[_w1] != z3.Const('names', _S)[_w2]))
+CONTRACTS = CONTRACTS + [NATIVE_DEC_RECORD]
+
+
+class _PyItems(_RecSeqV):
+    def elem(self, i):
+        return Obj('PyValue', {'__id__': self.cols[0][i]}, name='pyValue')
+
+
+ELEMENT_TYPE = Obj('Asn1Type', {'__id__': z3.Int('element.type')}, name='componentType')
+
+
+def _dc_spec(ex, env):
+    def clone(ex2, self, *a, **kw):
+        def append(ex3, me, value, *a2, **kw2):
+            me.fields['items'] = SeqV(z3.Concat(me.fields['items'].z, z3.Unit(idof(value))), 'any')
+        return Obj('SequenceOf', {'items': SeqV(z3.Empty(_S), 'any'), 'cleared': False, 'cloneOf': self},
+                   {'append': append, 'clear': lambda ex3, me: me.fields.__setitem__('cleared', True)}, name='asn1Value')
+    return Obj('SequenceOf', {'componentType': ELEMENT_TYPE}, {'clone': clone}, name='asn1Spec')
+
+
+D_ALL = z3.RecFunction('converted_items', _S, _I, _S)
+_dv, _du = z3.Const('_dv', _S), z3.Int('_du')
+z3.RecAddDefinition(D_ALL, [_dv, _du], z3.If(_du <= 0, z3.Empty(_S), z3.Concat(D_ALL(_dv, _du - 1),
+                                                                              z3.Unit(D_DEC(_dv[_du - 1], z3.Int('element.type'))))))
+NATIVE_DEC_COLLECTION = Contract(
+    id='native.decoder::SequenceOfOrSetOfPayloadDecoder.__call__', file=ND, qual='SequenceOfOrSetOfPayloadDecoder.__call__',
+    properties=['C17', 'C12'],
+    params=dict(items=_PIntTuple(), self=PObj('SequenceOfOrSetOfPayloadDecoder'),
+                pyObject=PDerived(lambda ex, env: _PyItems([env['items'].z], names=('__id__',))), asn1Spec=PDerived(_dc_spec),
+                decodeFun=PConst(FnV(_d_decode, 'decodeFun')), options=POptions()),
+    globals={'converted': FnV(lambda ex, seq, upto: SeqV(D_ALL(seq.cols[0] if isinstance(seq, _RecSeqV) else seq.z, toint(upto)), 'any'), 'converted'),
+             'unfold': FnV(lambda ex, seq, k: (lambda z, i: z3.Implies(i >= 0, D_ALL(z, i + 1) == z3.Concat(D_ALL(z, i), z3.Unit(D_DEC(z[i], z3.Int('element.type'))))))(
+                 seq.cols[0] if isinstance(seq, _RecSeqV) else seq.z, toint(k)), 'unfold')},
+    loops={0: Loop(index='k', invariant=['asn1Value.items == converted(loop_seq, k)', 'asn1Value.cleared'],
+                   havoc_fields=['asn1Value.items'], hints=['unfold(loop_seq, k)'])},
+    ensures=[('every-item-converted-under-the-component-type-in-order', 'result.items == converted(items, len(items)) and result.cleared'),
+             ('fresh-object-not-the-schema', 'result is not asn1Spec and result.cloneOf is asn1Spec')],
+    note='python lists of any length')
+
+
+# CHOICE: the first key of the mapping that names an alternative selects it
+def _dch_spec(ex, env):
+    def clone(ex2, self, *a, **kw):
+        def setitem(ex3, me, name, value):
+            me.fields['chosen'] = toint(name)
+            me.fields['value'] = idof(value)
+            me.fields['assignments'] = me.fields['assignments'] + 1
+        return Obj('Choice', {'chosen': z3.IntVal(-1), 'value': z3.IntVal(0), 'assignments': z3.IntVal(0), 'cloneOf': self},
+                   {'__setitem__': setitem}, name='asn1Value')
+    ct = Obj('NamedTypes', {}, {'__getitem__': lambda ex2, self, name: Obj('NamedType', {'asn1Object': Obj('Asn1Type', {'__id__': D_TYPE(toint(name))},
+                                                                                                       name='alternativeType')}, name='namedType'),
+                                '__contains__': lambda ex2, self, name: D_HAS(toint(name))}, name='componentType')
+    return Obj('Choice', {'componentType': ct}, {'clone': clone}, name='asn1Spec')
+
+
+def _dch_mapping(ex, env):
+    keys = env['keys'].z
+    return Obj('dict', {}, {'__iter__': lambda ex2, self: _Names([keys], names=('name',)),
+                            '__getitem__': lambda ex2, self, k: Obj('PyValue', {'__id__': D_PY(toint(k))}, name='pyValue')}, name='pyObject')
+
+
+def _none_before(ex, keys, upto):
+    z = keys.z if isinstance(keys, SeqV) else keys.cols[0]
+    return z3.ForAll([_j], z3.Implies(And(_j >= 0, _j < toint(upto)), Not(D_HAS(z[_j]))))
+
+
+NATIVE_DEC_CHOICE = Contract(
+    id='native.decoder::ChoicePayloadDecoder.__call__', file=ND, qual='ChoicePayloadDecoder.__call__', properties=['C17', 'C19'],
+    params=dict(keys=_PIntTuple(), self=PObj('ChoicePayloadDecoder'), pyObject=PDerived(_dch_mapping), asn1Spec=PDerived(_dch_spec),
+                decodeFun=PConst(FnV(_d_decode, 'decodeFun')), options=POptions()),
+    globals={'none_before': FnV(_none_before, 'none_before'), 'is_alternative': FnV(lambda ex, n: D_HAS(toint(n)), 'is_alternative'),
+             'conv': FnV(lambda ex, n: D_DEC(D_PY(toint(n)), D_TYPE(toint(n))), 'conv')},
+    loops={0: Loop(index='k', invariant=['none_before(loop_seq, k)', 'asn1Value.assignments == 0'],
+                   havoc_fields=['asn1Value.chosen', 'asn1Value.value', 'asn1Value.assignments'])},
+    ensures=[
+        ('at-most-one-alternative-set', 'result.assignments <= 1'),
+        ('the-first-key-that-names-an-alternative', 'result.assignments == 1 ==> (is_alternative(result.chosen) and '
+                                                    'result.value == conv(result.chosen))'),
+        ('nothing-chosen-only-if-no-key-names-one', 'result.assignments == 0 ==> none_before(keys, len(keys))')],
+    note='D_HAS here means "names an alternative of the CHOICE"')
+CONTRACTS = CONTRACTS + [NATIVE_DEC_COLLECTION, NATIVE_DEC_CHOICE]
